@@ -139,6 +139,112 @@ end WalrusVerif.Eng
 namespace WalrusVerif.Eng
 open WalrusVerif
 
+/-- a batch of ONE entry (what the data plane of distributed-walrus issues: `batch_append_for_topic(key, &[data])`)
+has the layout effect of a single append -/
+theorem batch1_friendly (c : Cfg) (p : Proc) (i : Inst) (t : Topic) (pay : Pay)
+    (hm : 0 < c.metaSz) (hb0 : 0 < c.blockSize) (hmax : c.blockSize ≤ c.maxAlloc) (hcap : 0 < c.cap)
+    (hmb : c.blockSize ≤ c.maxBatchBytes)
+    (hlong : t.long = false) (hfit : c.metaSz + pay.len ≤ c.blockSize)
+    (hroom : i.allocOff + c.blockSize ≤ c.fileSize)
+    (hw : ∀ w, i.writers.get? t = some w → w.batching = false ∧ w.blk.limit = c.blockSize) :
+    (batchAppendForTopic c p i t [pay]).2.2 = .ok ∧
+    AppendEffect c p i t pay (batchAppendForTopic c p i t [pay]).1 (batchAppendForTopic c p i t [pay]).2.1 := by
+  have hbig : ¬ (c.metaSz + pay.len > c.maxAlloc) := by omega
+  have hnf : batchFails none 1 = false := rfl
+  obtain ⟨mw, moff, mfile, mid⟩ := markClean_fields i t false
+  have hpre : (decide ([pay].length ≤ c.cap) && decide (([pay].map fun x => c.metaSz + x.len).sum ≤ c.maxBatchBytes) &&
+      [pay].any (fun x => decide (c.metaSz + x.len > c.maxAlloc))) = false := by
+    simp [hbig]
+  have h1 : ¬ ([pay].length > c.cap) := by simp; omega
+  have h2 : ¬ (([pay].map fun x => c.metaSz + x.len).sum > c.maxBatchBytes) := by simp; omega
+  unfold batchAppendForTopic
+  simp only
+  unfold getOrCreateWriter
+  rw [mw]
+  cases hwr : i.writers.get? t with
+  | none =>
+    simp only
+    unfold getNextAvailableBlock
+    have h0 : ¬ ((markClean i t false).allocOff ≥ c.fileSize) := by rw [moff]; omega
+    simp only [h0, if_false]
+    unfold writerBatchWrite
+    rw [hpre]
+    simp only [Bool.false_eq_true, if_false]
+    unfold writerBatchWriteCore
+    simp only [h1, h2, if_false, List.isEmpty_cons, Bool.false_eq_true, hlong]
+    unfold planBatch
+    have h3 : c.blockSize - 0 ≥ c.metaSz + pay.len := by omega
+    simp only [h3, if_true]
+    unfold planBatch
+    simp only [List.reverse_cons, List.reverse_nil, List.nil_append, List.length_singleton, hnf, Bool.false_eq_true,
+      if_false, List.foldl_cons, List.foldl_nil]
+    refine ⟨trivial, ?_, Or.inl ⟨Or.inl hwr, ?_, ?_, ?_⟩⟩
+    · exact (incCount_fields _ _ _).2.2.1.trans mfile
+    · simp only [nextBlk, moff, mfile, mid]
+    · exact (incCount_fields _ _ _).2.1.trans (by simp only [moff])
+    · intro t'
+      rw [(incCount_fields _ _ _).1]
+      simp only [nextBlk, moff, mfile, mid, mw, Nat.zero_add]
+      rw [AMap.get?_insert]
+      by_cases ht : t = t'
+      · simp [ht]
+      · simp only [ht, if_false]; rw [AMap.get?_insert_ne _ _ _ _ ht]
+  | some w =>
+    obtain ⟨hwb, hwl⟩ := hw w hwr
+    simp only
+    unfold writerBatchWrite
+    rw [hpre]
+    simp only [Bool.false_eq_true, if_false]
+    unfold writerBatchWriteCore
+    simp only [h1, h2, if_false, List.isEmpty_cons, Bool.false_eq_true, hlong, hwb]
+    unfold planBatch
+    by_cases hfits : w.blk.limit - w.off ≥ c.metaSz + pay.len
+    · simp only [hfits, if_true]
+      unfold planBatch
+      simp only [List.reverse_cons, List.reverse_nil, List.nil_append, List.length_singleton, hnf, Bool.false_eq_true,
+        if_false, List.foldl_cons, List.foldl_nil]
+      by_cases hle : w.off ≤ w.blk.limit
+      · refine ⟨trivial, ?_, Or.inr ⟨w, hwr, by omega, rfl, ?_, ?_⟩⟩
+        · exact (incCount_fields _ _ _).2.2.1.trans mfile
+        · exact (incCount_fields _ _ _).2.1.trans moff
+        · intro t'
+          rw [(incCount_fields _ _ _).1]
+          simp only [mw]
+          rw [AMap.get?_insert]
+          by_cases ht : t = t' <;> simp [ht, hwb]
+      · exfalso; omega
+    · simp only [hfits, if_false]
+      unfold sealBlock
+      simp only
+      have hfields : (appendBlockToChain (markClean i t false) t { w.blk with used := w.off }).allocOff = i.allocOff ∧
+          (appendBlockToChain (markClean i t false) t { w.blk with used := w.off }).allocId = i.allocId ∧
+          (appendBlockToChain (markClean i t false) t { w.blk with used := w.off }).allocFile = i.allocFile ∧
+          (appendBlockToChain (markClean i t false) t { w.blk with used := w.off }).writers = i.writers := by
+        unfold appendBlockToChain; simp only; exact ⟨moff, mid, mfile, mw⟩
+      have hmaxeq : max (c.metaSz + pay.len) c.blockSize = c.blockSize := Nat.max_eq_right hfit
+      rw [hmaxeq]
+      obtain ⟨p2, ha, hpf⟩ := allocBlock_unit c { p with trk := p.trk.setBlockUnlocked w.blk.id }
+        (appendBlockToChain (markClean i t false) t { w.blk with used := w.off }) c.blockSize
+        hb0 (Nat.le_refl _) hmax hb0 (by rw [hfields.1]; exact hroom)
+      rw [ha]
+      simp only
+      unfold planBatch
+      simp only [List.reverse_cons, List.reverse_nil, List.nil_append, List.length_singleton, hnf, Bool.false_eq_true,
+        if_false, List.foldl_cons, List.foldl_nil]
+      refine ⟨trivial, ?_, Or.inl ⟨Or.inr ⟨w, hwr, by omega⟩, ?_, ?_, ?_⟩⟩
+      · exact (incCount_fields _ _ _).2.2.1.trans hfields.2.2.1
+      · simp only [hpf, nextBlk, hfields.1, hfields.2.1, hfields.2.2.1]
+      · exact (incCount_fields _ _ _).2.1.trans (by simp only [hfields.1])
+      · intro t'
+        rw [(incCount_fields _ _ _).1]
+        simp only [nextBlk, hfields.1, hfields.2.1, hfields.2.2.1, hfields.2.2.2]
+        rw [AMap.get?_insert]
+
+end WalrusVerif.Eng
+
+namespace WalrusVerif.Eng
+open WalrusVerif
+
 /-! ### cells -/
 
 theorem cellAt_append_some (cs : List Cell) (x y : Cell) (o : Nat) (h : cellAt cs o = some y) :
